@@ -43,7 +43,13 @@ ASSUMPTIONS = [
     'the set of nodes "stored in the attributes" of a holder is computed by our own traversal of vars(holder) '
     'through list/tuple/dict values (keys starting with _ and the ctx/parseinfo fields excluded)',
     'attribute names are the keys of the plain AST (the AST renames keys that collide with dict attributes: '
-    'items -> items_)',
+    'items -> items_); for classes of the generated model module the sanitised spelling of a key (class_ for class, '
+    'items for items_) is accepted provided the value is there, and declared fields left at None are not extras',
+    'a typed rule whose value is the AST dict of an untyped callee (keys that are not the rule\'s own named elements) '
+    'is an open corner (synthesized classes spread the keys into attributes, classes with fields keep the dict in '
+    '.ast): counted as flagged:dict-value-not-from-own-names, values compared wherever they are',
+    'the synthesized-class registry is read through vars(tatsu.objectmodel.synth) only to name the mechanism of an '
+    'MRO mismatch (stale class) and to make such a witness replayable; the verdict does not depend on it',
 ]
 FLOORS = {
     'quick': {'accepted': 4000, 'distinct_nontrivial': 3400, 'nodes_expected': 20000, 'exact_comparisons': 8000,
